@@ -38,11 +38,28 @@ type FileStore interface {
 	GetCacheFileReader(name string) (store.FileReader, error)
 }
 
+// TaskFinder finds stored write-back tasks.
+type TaskFinder interface {
+	Find(query interface{}) ([]persistedretry.Task, error)
+}
+
 // Executor executes write back tasks.
 type Executor struct {
 	stats    tally.Scope
 	fs       FileStore
 	backends *backend.Manager
+	tasks    TaskFinder
+}
+
+// Option configures an Executor.
+type Option func(*Executor)
+
+// WithTaskFinder makes the executor look up the stored write-back tasks of a
+// file before it removes the file's persist metadata. The same file may be
+// waiting to be written back under several namespaces, and the persist metadata
+// is all that protects it from cleanup until the last of those tasks is done.
+func WithTaskFinder(f TaskFinder) Option {
+	return func(e *Executor) { e.tasks = f }
 }
 
 // NewExecutor creates a new Executor.
@@ -50,12 +67,17 @@ func NewExecutor(
 	stats tally.Scope,
 	fs FileStore,
 	backends *backend.Manager,
+	opts ...Option,
 ) *Executor {
 	stats = stats.Tagged(map[string]string{
 		"module": "writebackexecutor",
 	})
 
-	return &Executor{stats, fs, backends}
+	e := &Executor{stats: stats, fs: fs, backends: backends}
+	for _, opt := range opts {
+		opt(e)
+	}
+	return e
 }
 
 // Name returns the executor name.
@@ -90,6 +112,23 @@ func (e *Executor) Exec(r persistedretry.Task) error {
 		return err
 	}
 
+	if pending, err := e.pendingForOtherNamespace(t); err != nil {
+		log.WithTraceContext(ctx).With(
+			"namespace", t.Namespace,
+			"name", t.Name,
+			"error", err,
+		).Error("Failed to look up other writeback tasks")
+		return fmt.Errorf("find writeback tasks: %s", err)
+	} else if pending {
+		// The file still has to be written back for another namespace, so it
+		// must stay protected from cleanup. The last task removes the metadata.
+		log.WithTraceContext(ctx).With(
+			"namespace", t.Namespace,
+			"name", t.Name,
+		).Debug("Keeping persist metadata for pending writeback of another namespace")
+		return nil
+	}
+
 	err := e.fs.DeleteCacheFileMetadata(t.Name, &metadata.Persist{})
 	if err != nil && !os.IsNotExist(err) {
 		log.WithTraceContext(ctx).With(
@@ -106,6 +145,24 @@ func (e *Executor) Exec(r persistedretry.Task) error {
 	).Debug("Successfully completed writeback task")
 
 	return nil
+}
+
+// pendingForOtherNamespace returns true if a write-back task for t's file is
+// stored under a namespace other than t's.
+func (e *Executor) pendingForOtherNamespace(t *Task) (bool, error) {
+	if e.tasks == nil {
+		return false, nil
+	}
+	tasks, err := e.tasks.Find(NewNameQuery(t.Name))
+	if err != nil {
+		return false, err
+	}
+	for _, task := range tasks {
+		if other, ok := task.(*Task); ok && other.Namespace != t.Namespace {
+			return true, nil
+		}
+	}
+	return false, nil
 }
 
 // getContextFromTask extracts trace context from a task if available.
